@@ -52,3 +52,12 @@ CLAIMED["C34"] = _simple(["ApkFiles", "ApkFiles_Trace"],
     "compared with the state and validated by ApkFiles_Trace together with random archives with nested and non-ASCII names.",
     "Trusted: Python's zipfile as the independent archive writer, TLC.",
     "TLA+ definition of the DEX listing model-checked with TLC over all small archives; every archive built and opened with the real APK class; observations validated by a TLA+ trace spec", "4/C34")
+CLAIMED["C33"] = _simple(["SigBlock", "SigBlockMC", "SigBlock_Trace"],
+    "SigBlock.tla gives the apksig encoding of v2 / v3 / v3.1 signer lists as byte sequences (Enc*), the reader (Dec*) and the queries of the APK object defined on the block's id-value pairs (presence "
+    "flags, first block with an id, duplicate ids, certificates, public keys, signers with digests / signatures / SDK bounds / attributes). SigBlockMC models the object answering query histories with the "
+    "block parsed lazily; TLC checks for every block of <= 2 (3) pairs out of 7 and every history of <= 2 of the 13 queries that each answer is the one defined on the encoded pairs, that Dec(Enc(x)) = x and "
+    "that the first block wins; three implementation-shaped variants (duplicate query that does not load, v3.1 tied to v3, first-element-only list reader) must yield their counterexamples. Every (strided) "
+    "enumerated history is replayed on a fresh APK object built from the bytes TLC produced with Enc*; random blocks written by an independent Python encoder and random histories are validated by "
+    "SigBlock_Trace, which decodes the written bytes with the TLA+ reader.",
+    "Trusted: TLC, the zip container from Python's zipfile with the block spliced in before the central directory. Well-formed blocks only (malformed ones belong to C35); numbers < 2^31.",
+    "TLA+ codec + lazy-loading query model checked with TLC (incl. expected counterexamples of implementation-shaped variants); histories replayed on real objects; answers validated by a TLA+ trace spec", "4/C33")
